@@ -165,6 +165,30 @@ let do_signature b big kinds t =
     | None -> Buffer.add_string b "?") (drop n (sv_signature res ps));
   Buffer.add_string b (if no_pad t then " nopad=1" else " nopad=0")
 
+(* "S <0|1> <type> <type> ...": a whole signature from the declared parameter types (round 3): result through the
+   hidden pointer or not; every parameter a scalar type (bint, bldouble, p, eint ...) or a struct/union; "." (start of
+   a variadic tail) is skipped.  -> "S c2m=<blkK|->,... sv=<I/S/n letters|M|->,... ctr=<ni>,<nf> svctr=<ni>,<nf> ok=<0|1>"
+   (c2m_csignature | sv_csignature, c2m_counters | sv_counters; ok = every aggregate inside the theorems' quantifier) *)
+let do_csignature b big toks =
+  let res = if big then RAgg (TAgg (false, [(MNamed, TArr (z_of_int 4, TBasic KLong))])) else RScalar in
+  let rec params acc = function
+    | [] -> List.rev acc
+    | "." :: r -> params acc r
+    | r -> let (t, r) = parse_ty r in params ((match t with TAgg _ -> CAgg t | _ -> CScalar t) :: acc) r in
+  let ps = params [] toks in
+  Buffer.add_string b "S c2m=";
+  List.iteri (fun i o -> Buffer.add_string b ((if i > 0 then "," else "") ^
+    (match o with Some k -> Printf.sprintf "blk%d" (int_of_z k) | None -> "-"))) (c2m_csignature res ps);
+  Buffer.add_string b " sv=";
+  List.iteri (fun i o -> if i > 0 then Buffer.add_string b ",";
+    match o with
+    | Some None -> Buffer.add_string b "M"
+    | Some (Some l) -> List.iter (fun p -> Buffer.add_string b (match p with InInt -> "I" | InSse -> "S" | InNone -> "n")) l
+    | None -> Buffer.add_string b "-") (sv_csignature res ps);
+  let (ci, cf) = c2m_counters res ps and (si, sf) = sv_counters res ps in
+  Buffer.add_string b (Printf.sprintf " ctr=%d,%d svctr=%d,%d" (int_of_z ci) (int_of_z cf) (int_of_z si) (int_of_z sf));
+  Buffer.add_string b (if List.for_all (function CAgg t -> wf_ty t && no_pad t | CScalar _ -> true) ps then " ok=1" else " ok=0")
+
 let () =
   try
     while true do
@@ -184,6 +208,7 @@ let () =
            do_classify b pres t
          | "B" :: rest -> let (t, _) = parse_ty rest in do_bfsign b t
          | "G" :: big :: kinds :: "|" :: decl -> let (t, _) = parse_ty decl in do_signature b (big = "1") kinds t
+         | "S" :: big :: rest -> do_csignature b (big = "1") rest
          | "L" :: rest -> let (t, _) = parse_ty rest in do_layout b t
          | toks -> let (t, _) = parse_ty toks in do_layout b t);
         print_endline (Buffer.contents b)
